@@ -90,6 +90,10 @@ func TestC12Modules(t *testing.T) {
 		FundModule(c.w.App, c.ctx, vestingtypes.ModuleName, sdk.NewCoins(sdk.NewCoin(Denom, gpAmt)))
 		c.w.App.CfevestingKeeper.AppendVestingAccountTrace(c.ctx, vestingtypes.VestingAccountTrace{Address: LockedVestingAddr().String(), Genesis: true})
 		c.w.App.CfevestingKeeper.AppendVestingAccountTrace(c.ctx, vestingtypes.VestingAccountTrace{Address: KeyAcc(7).Addr.String(), FromGenesisPool: true, FromGenesisAccount: true})
+		// ... and a record for an address that has no account yet (the genesis file may list one); a later
+		// pool send to it replaces the record and advances the trace counter past the number of records
+		recordedAbsent := FreshAddr(9001)
+		c.w.App.CfevestingKeeper.AppendVestingAccountTrace(c.ctx, vestingtypes.VestingAccountTrace{Address: recordedAbsent.String()})
 		c.note("init minter=%s distributor=%s", jsonStr(c.mcfg), jsonStr(c.dcfg))
 
 		type step struct {
@@ -126,7 +130,11 @@ func TestC12Modules(t *testing.T) {
 					Amount: sdk.NewIntFromBigInt(genAmount(t, l+"_amt", 18, true)), Duration: time.Duration(rapid.IntRange(1, 100).Draw(t, l+"_dur")) * time.Hour, VestingType: "vt0"}, What: "create pool"}
 			default:
 				fresh++
-				return step{Kind: "msg", Msg: &vestingtypes.MsgSendToVestingAccount{Owner: KeyAcc(1).Addr.String(), ToAddress: FreshAddr(fresh).String(), VestingPoolName: fmt.Sprintf("p%d", rapid.IntRange(0, 3).Draw(t, l+"_pn")),
+				to := FreshAddr(fresh)
+				if rapid.IntRange(0, 4).Draw(t, l+"_toRecorded") == 0 {
+					to = recordedAbsent
+				}
+				return step{Kind: "msg", Msg: &vestingtypes.MsgSendToVestingAccount{Owner: KeyAcc(1).Addr.String(), ToAddress: to.String(), VestingPoolName: fmt.Sprintf("p%d", rapid.IntRange(0, 3).Draw(t, l+"_pn")),
 					Amount: sdk.NewInt(int64(rapid.IntRange(0, 1000).Draw(t, l+"_amt"))), RestartVesting: rapid.Bool().Draw(t, l+"_rs")}, What: "pool send"}
 			}
 		}
